@@ -23,12 +23,12 @@ package runtimev2
 //@ func (*PlReg).Reset
 //@ props C18
 //@ modifies reg.Val
-//@ ensures len(reg.Val) == 0 && reg.writes > old(reg.writes)
+//@ ensures len(reg.Val) == 0 && reg.writes > old(reg.writes) && base(reg.Val) == old(base(reg.Val))
 
 //@ func (*PlReg).ReturnAppend
 //@ props C18
 //@ modifies reg.Val, elemsof(V)
-//@ ensures len(reg.Val) == len(val) && reg.writes > old(reg.writes)
+//@ ensures len(reg.Val) == len(val) && reg.writes > old(reg.writes) && (base(reg.Val) == old(base(reg.Val)) || fresh(reg.Val))
 
 //@ func (*PlReg).Count
 //@ props C18
@@ -56,6 +56,7 @@ package runtimev2
 //@ functype FnCall
 //@ observe regcount int = len(ctx.Regs.Val)
 //@ ensures regMono(ctx)
+//@ ensures base(ctx.Regs.Val) == old(base(ctx.Regs.Val)) || fresh(ctx.Regs.Val)
 
 //@ func (*Task).GetKey
 //@ props C18
@@ -102,6 +103,8 @@ package runtimev2
 //@ observe sig Signal = ctx.signal
 //@ modifies v2Frame
 //@ ensures regMono(ctx)
+// the register keeps its storage or moves to storage allocated during the call
+//@ ensures base(ctx.Regs.Val) == old(base(ctx.Regs.Val)) || fresh(ctx.Regs.Val)
 // an expression that succeeds leaves a fresh or an empty register
 //@ ownensures result == nil && node != nil && !ast.isStmtKind(node) && node.NodeType != ast.TypeAssignmentExpr ==> freshOrEmpty(ctx)
 //@ ownensures result == nil && node != nil && alwaysValue(node.NodeType) ==> oneFresh(ctx)
@@ -124,14 +127,14 @@ package runtimev2
 //@ props C18
 //@ ensures result == nil ==> oneFresh(ctx)
 //@ loop 1
-//@ invariant regMono(ctx)
+//@ invariant regMono(ctx) && (base(ctx.Regs.Val) == old(base(ctx.Regs.Val)) || fresh(ctx.Regs.Val))
 
 //@ func RunMapInitExpr
 //@ like RunExpr
 //@ props C18
 //@ ensures result == nil ==> oneFresh(ctx)
 //@ loop 1
-//@ invariant regMono(ctx) && ret != nil
+//@ invariant regMono(ctx) && (base(ctx.Regs.Val) == old(base(ctx.Regs.Val)) || fresh(ctx.Regs.Val)) && ret != nil
 
 //@ func RunIndexExprGet
 //@ like RunExpr
@@ -143,14 +146,14 @@ package runtimev2
 //@ props C18
 //@ ensures result == nil ==> oneFresh(ctx)
 //@ loop 1
-//@ invariant regMono(ctx)
+//@ invariant regMono(ctx) && (base(ctx.Regs.Val) == old(base(ctx.Regs.Val)) || fresh(ctx.Regs.Val))
 
 //@ func RunInExpr
 //@ like RunExpr
 //@ props C18
 //@ ensures result == nil ==> oneFresh(ctx)
 //@ loop 1
-//@ invariant regMono(ctx)
+//@ invariant regMono(ctx) && (base(ctx.Regs.Val) == old(base(ctx.Regs.Val)) || fresh(ctx.Regs.Val))
 
 //@ func RunConditionExpr
 //@ like RunExpr
@@ -167,13 +170,13 @@ package runtimev2
 //@ props C18
 //@ ensures result == nil ==> oneFresh(ctx)
 //@ loop 1
-//@ invariant regMono(ctx)
+//@ invariant regMono(ctx) && (base(ctx.Regs.Val) == old(base(ctx.Regs.Val)) || fresh(ctx.Regs.Val))
 //@ loop 2
-//@ invariant regMono(ctx)
+//@ invariant regMono(ctx) && (base(ctx.Regs.Val) == old(base(ctx.Regs.Val)) || fresh(ctx.Regs.Val))
 //@ loop 3
-//@ invariant regMono(ctx)
+//@ invariant regMono(ctx) && (base(ctx.Regs.Val) == old(base(ctx.Regs.Val)) || fresh(ctx.Regs.Val))
 //@ loop 4
-//@ invariant regMono(ctx)
+//@ invariant regMono(ctx) && (base(ctx.Regs.Val) == old(base(ctx.Regs.Val)) || fresh(ctx.Regs.Val))
 
 // a call leaves what the function returned during this call - or nothing
 //@ func RunCallExpr
@@ -192,7 +195,7 @@ package runtimev2
 //@ like RunExpr
 //@ props C18
 //@ loop 1
-//@ invariant regMono(ctx)
+//@ invariant regMono(ctx) && (base(ctx.Regs.Val) == old(base(ctx.Regs.Val)) || fresh(ctx.Regs.Val))
 
 // `a, b = x, y`: the whole right side is evaluated, in order, before anything is assigned: while the
 // first loop (which evaluates the right operands) runs, no variable and no element is assigned
@@ -202,10 +205,13 @@ package runtimev2
 //@ props C18
 //@ ensures result == nil ==> ncalls(RunExpr) >= tomath(len(expr.RHS)) && (forall k :: 0 <= k && k < len(expr.RHS) ==> callarg(RunExpr, tomath(k), 1) == expr.RHS[k])
 //@ loop 1
-//@ invariant regMono(ctx) && ncalls(RunExpr) == tomath(rangeindex) + 1 && ncalls((*Task).SetVarb) == 0 && ncalls(changeListOrMapValue) == 0
+//@ invariant regMono(ctx) && (base(ctx.Regs.Val) == old(base(ctx.Regs.Val)) || fresh(ctx.Regs.Val)) && ncalls(RunExpr) == tomath(rangeindex) + 1 && ncalls((*Task).SetVarb) == 0 && ncalls(changeListOrMapValue) == 0
+// the values collected so far live in storage this function allocated - never in the register's
+// own storage, which later evaluations overwrite
+//@ invariant cap(vals) == 0 || fresh(vals)
 //@ invariant forall k :: 0 <= k && k <= rangeindex ==> callarg(RunExpr, tomath(k), 1) == expr.RHS[k]
 //@ loop 2
-//@ invariant regMono(ctx) && ncalls(RunExpr) >= tomath(len(expr.RHS))
+//@ invariant regMono(ctx) && (base(ctx.Regs.Val) == old(base(ctx.Regs.Val)) || fresh(ctx.Regs.Val)) && ncalls(RunExpr) >= tomath(len(expr.RHS))
 //@ invariant forall k :: 0 <= k && k < len(expr.RHS) ==> callarg(RunExpr, tomath(k), 1) == expr.RHS[k]
 
 // ---- statements --------------------------------------------------------------------------
@@ -214,30 +220,34 @@ package runtimev2
 //@ like RunExpr
 //@ props C18 C14
 //@ observe sig Signal = ctx.signal
+//@ observe emptyscope bool = ctx.stackCur != nil && (forall n string :: !dom(ctx.stackCur.Data, n))
 //@ loop 1
-//@ invariant regMono(ctx)
+//@ invariant regMono(ctx) && (base(ctx.Regs.Val) == old(base(ctx.Regs.Val)) || fresh(ctx.Regs.Val))
 
 //@ func RunIfElseStmt
 //@ like RunExpr
 //@ props C18
 //@ loop 1
-//@ invariant regMono(ctx)
+//@ invariant regMono(ctx) && (base(ctx.Regs.Val) == old(base(ctx.Regs.Val)) || fresh(ctx.Regs.Val))
 
 //@ func RunForStmt
 //@ like RunExpr
 //@ props C18
+// every execution of the body starts in a scope of its own, with no variable in it
+//@ ensures forall k mathint :: 0 <= k && k < ncalls(RunStmts) ==> callobs(RunStmts, k, emptyscope)
 //@ loop 1
-//@ invariant regMono(ctx)
+//@ invariant forall k mathint :: 0 <= k && k < ncalls(RunStmts) ==> callobs(RunStmts, k, emptyscope)
+//@ invariant regMono(ctx) && (base(ctx.Regs.Val) == old(base(ctx.Regs.Val)) || fresh(ctx.Regs.Val))
 
 //@ func RunForInStmt
 //@ like RunExpr
 //@ props C18
 //@ loop 1
-//@ invariant regMono(ctx)
+//@ invariant regMono(ctx) && (base(ctx.Regs.Val) == old(base(ctx.Regs.Val)) || fresh(ctx.Regs.Val))
 //@ loop 2
-//@ invariant regMono(ctx)
+//@ invariant regMono(ctx) && (base(ctx.Regs.Val) == old(base(ctx.Regs.Val)) || fresh(ctx.Regs.Val))
 //@ loop 3
-//@ invariant regMono(ctx)
+//@ invariant regMono(ctx) && (base(ctx.Regs.Val) == old(base(ctx.Regs.Val)) || fresh(ctx.Regs.Val))
 
 //@ func RunBreakStmt
 //@ like RunExpr
